@@ -353,7 +353,7 @@ def exec_ni_history(hist, rp):
         elif op["alias"] == "sameab" and uks and op["container"] == "single":
             arg = np.stack([dms[0][0], dms[0][0]])  # both channels... still two arrays
             arg = (arg[0], arg[0])  # the *same* array object as alpha and beta
-        before = adigest(*(arg if isinstance(arg, (list, tuple)) else [arg]), g.coords, g.weights)
+        before = adigest(*(arg if isinstance(arg, (list, tuple)) else [arg]), g.coords, g.weights, mol._atm, mol._bas, mol._env)
         fn = ni.nr_uks if uks else ni.nr_rks
         try:
             n, e, v = fn(mol, g, ks.xc, arg, max_memory=op["max_memory"])
@@ -363,7 +363,7 @@ def exec_ni_history(hist, rp):
             tb = traceback.extract_tb(ex.__traceback__)
             V("call-raises:%s:%s:%s" % ("nr_uks" if uks else "nr_rks", type(ex).__name__, tb[-1].name if tb else "?"), "step %d: %s" % (step, str(ex)[:200]))
             break
-        after = adigest(*(arg if isinstance(arg, (list, tuple)) else [arg]), g.coords, g.weights)
+        after = adigest(*(arg if isinstance(arg, (list, tuple)) else [arg]), g.coords, g.weights, mol._atm, mol._bas, mol._env)
         stats["calls"] += 1
         stats["calls_nset_%d" % len(dms)] += 1
         stats["calls_uks" if uks else "calls_rks"] += 1
@@ -382,7 +382,7 @@ def exec_ni_history(hist, rp):
         fam = type(ni).__name__
         site = "%s.%s" % (fam, "nr_uks" if uks else "nr_rks")
         if before != after:
-            V("input-mutated:%s:dm-or-grid" % site, "step %d: caller-owned arrays changed by the call" % step)
+            V("input-mutated:%s:dm-grid-or-mol" % site, "step %d: caller-owned arrays changed by the call" % step)
         nset = len(dms)
         for lab, arr, snap in held:
             if not np.array_equal(np.asarray(arr), snap, equal_nan=True):
